@@ -2,6 +2,7 @@ SPECIFICATION Spec
 CONSTANT Kind = "single"
 CONSTANT MaxDepth <- Unbounded
 CONSTANT Deviation = "none"
+CONSTANT Setters = FALSE
 CONSTANT Export = FALSE
 VIEW AbstractView
 INVARIANT TypeOK
